@@ -12,8 +12,11 @@ def _bufferize_attributes(module, attributes):
     loaded to/from state_dicts, as the original parameters cannot be.
     """
     if isinstance(module, TransformedDistribution):
+        # the buffers must not be the caller's tensors (load_state_dict copies into them in place): clone, then make
+        # the base distribution read the buffers
         for attr in attributes:
-            module.register_buffer(f"_transformed_{attr}", getattr(module, attr))
+            module.register_buffer(f"_transformed_{attr}", getattr(module, attr).clone())
+        _load_transformed_to_base_dist(module)
     else:
         attr_clones = {attr: getattr(module, attr).clone() for attr in attributes}
         for attr, value in attr_clones.items():
